@@ -2,11 +2,13 @@
 import tops
 from engine import EngineClient
 from reactor import components
+from props.c09 import Ring
+from props.c10 import ElasticC
 
 
 def main(tier, replay):
-    return tops.run("C01", components(['stream']) + [EngineClient()], tier,
-                    level_text="Props/C01.lean: consumed ++ inbound ++ buffer = delivered is an invariant of every accepted round of the reactor model. The model is a trace acceptor over abstract FIFO buffers (justified by the C09/C10/C11 refinements); it is tied to the code by trace acceptance: one REAL event loop on real sockets runs step by step, every system call goes through a logging / fault-injecting shim, and every round's log must be accepted by the model (kernel results and handler actions are inputs, system-call requests, callbacks and method results are predictions). Independent oracles check the property end to end on the same runs",
+    return tops.run("C01", components(['stream']) + [EngineClient(), ElasticC(), Ring()], tier,
+                    level_text="Props/C01.lean: consumed ++ inbound ++ buffer = delivered is an invariant of every accepted round of the reactor model. The model is a trace acceptor over abstract FIFO buffers (justified by the C09/C10/C11 refinements); it is tied to the code by trace acceptance: one REAL event loop on real sockets runs step by step, every system call goes through a logging / fault-injecting shim, and every round's log must be accepted by the model (kernel results and handler actions are inputs, system-call requests, callbacks and method results are predictions). Independent oracles check the property end to end on the same runs. The buffer refinements the abstraction rests on (elastic.RingBuffer and ring.Buffer are FIFO lists, C10/C09) are restated as obligations and their op-sequence correspondence runs here too",
                     assumptions=["Linux socket and epoll semantics (real kernel in the runs, inputs of the model)",
                                  "instrumentation (selector renaming to the shim, entry logging) does not change behaviour",
                                  "the Go scheduler and multi-loop timing are outside the model (C03/C13 cover the hand-over protocol)"],
